@@ -252,6 +252,23 @@ CHECKS["C06"] = dict(
     note="Quick tier explores all entry kinds in detect and a reduced set in build (same scanning code). Free-form TOML tables are identity-tracked; "
          "non-UTF-8 file names and custom Platform/Metadata types are outside. " + BASE_NOTE)
 
+CHECKS["C07"] = dict(
+    text="Claimed at the serde data-model level (the toml crate's tree->text step is outside). Bounded model checking from MIR of "
+         "BuildPlanBuilder::{new, provides, requires, or, build}, Require::new/From<S>, LaunchBuilder::{new, process, label, slice, build}, "
+         "ProcessBuilder::{new, arg, default, working_directory, build}, the derived/hand-written Serialize of BuildPlan, Or, Provide, Require, "
+         "Launch, Process, ProcessType, WorkingDirectory, Label, Slice, Store, ExecDProgramOutput(+Key), write_toml_file, "
+         "write_exec_d_program_output (fd 3) and read_toml_file with the derived Deserialize of Launch/Process/Label/Slice/Store. Every "
+         "BuildPlanBuilder call sequence of length 0..4 (quick) / 0..5 (thorough) over {provides, requires, requires+metadata, or} - so empty "
+         "groups in every position -, every LaunchBuilder sequence of length 0..3 / 0..4 over {process, label, slice} (quick: 4 representative "
+         "process shapes; thorough: command 1..2 x arg x default x working dir), a store, 0..2 exec.d pairs; all string payloads are SMT "
+         "strings over every Unicode scalar value, flags solver variables. An independent reader applying the CNB field names and defaults "
+         "to the produced document must recover exactly the constructed value (solver-decided), and reading back yields an equal value.",
+    design_ref="DESIGN.md §5 C07",
+    technique="symbolic execution of rustc MIR (mirsym) of builders and derived Serialize/Deserialize over abstract TOML trees with SMT strings + z3; oracle = independent reader of the CNB document schema; witnesses replayed through the real writers and parsed with Python tomllib",
+    note="No for-all claim about the bytes (escaping, TOML 1.0 validity): a change that replaces toml::to_string by hand-formatted text ends "
+         "inconclusive (exit 2), not detected. The untagged WorkingDirectory Deserialize is a hook. LayerContentMetadata is C01/C02's, package "
+         "descriptors C14's. " + BASE_NOTE)
+
 NOT_YET = "check not built yet in this round (see DESIGN.md §9 build order); no claim is made"
 NOT_APPLICABLE = {}
 ALL = [f"C{i:02d}" for i in range(1, 21)]
